@@ -75,7 +75,7 @@ Definition exponent_coeff (forward : bool) (t : Q) : gq :=
 
 (* ---- which kernel ---------------------------------------------------------------------- *)
 Inductive kernel :=
-| SolveIvp (method : string)      (* scipy.integrate.solve_ivp(rhs, (0, t), y0, method=, t_eval=[t]) *)
+| SolveIvp (method : string)      (* scipy.integrate.solve_ivp(rhs, (0, t), y0, method=)  (no t_eval) *)
 | Expm                            (* scipy.linalg.expm(exponent) @ vector *)
 | Eigsh (k : nat)                 (* scipy.sparse.linalg.eigsh(exponent, k=k), then v diag(exp w) pinv(v) vector *)
 | ExpmMultiply                    (* scipy.sparse.linalg.expm_multiply(exponent, vector, traceA=trace(exponent)) *)
@@ -120,7 +120,7 @@ Section Evolve.
   Variable dim : M -> nat.                    (* .shape[0] *)
   (* kernels *)
   Variable k_solve_ivp : string -> M -> Q * Q -> list Q -> list X -> list (list X).
-        (* method, matrix of the linear right-hand side, t_span, t_eval, y0 |-> columns of solution.y *)
+        (* method, matrix of the linear right-hand side, t_span, t_eval ([] = not given), y0 |-> columns of solution.y *)
   Variable k_expm : M -> M.
   Variable matvec : M -> list X -> list X.    (* @ *)
   Variable k_eigsh : nat -> M -> list X -> list X.
@@ -148,8 +148,8 @@ Section Evolve.
     match is_scipy m with
     | None => None
     | Some true =>
-        match k_solve_ivp (value m) rhs_matrix (0%Q, t) [t] (flatten psi) with
-        | column0 :: _ => reshape column0 (shape psi)       (* solution.y[:,0] *)
+        match rev (k_solve_ivp (value m) rhs_matrix (0%Q, t) [] (flatten psi)) with
+        | column :: _ => reshape column (shape psi)         (* solution.y[:,-1] *)
         | [] => None                                        (* no column: the subscript raises *)
         end
     | Some false =>
@@ -188,13 +188,13 @@ Section Contracts.
   Definition exp_laws : Prop :=
     E mzero = mone /\ (forall A, mmul (E (gscale (-1, 0)%Z A)) (E A) = mone).
 
-  (* every kernel computes the exponential action; solve_ivp returns one column per t_eval point *)
+  (* every kernel computes the exponential action; the last column of solve_ivp is the solution at t *)
   Definition kernel_contracts : Prop :=
     (forall A, k_expm A = E A) /\
     (forall k A v, k_eigsh k A v = matvec (E A) v) /\
     (forall A v, k_expm_multiply A v = matvec (E A) v) /\
     (forall A v, k_expm_sparse A v = matvec (E A) v) /\
-    (forall me A t v, k_solve_ivp me A (0%Q, t) [t] v = [matvec (E (tscale A t)) v]).
+    (forall me A t v, exists pre, k_solve_ivp me A (0%Q, t) [] v = (pre ++ [matvec (E (tscale A t)) v])%list).
 
   Variable S : Type.
   Variable ip : list X -> list X -> S.         (* inner product *)
@@ -314,7 +314,7 @@ Definition accepted (rows cols : nat) (s : list nat) : bool :=
 (* the call a kernel of the table receives (used to state that [observe] is the table) *)
 Definition kernel_call (k : kernel) (f : bool) (t : Q) : call :=
   match k with
-  | SolveIvp me => CSolveIvp me (gq_mul_gi (rhs_coeff f) gq_one) (0%Q, t) [t]
+  | SolveIvp me => CSolveIvp me (gq_mul_gi (rhs_coeff f) gq_one) (0%Q, t) []
   | Expm => CExpm (exponent_coeff f t)
   | Eigsh kk => CEigsh kk (exponent_coeff f t)
   | ExpmMultiply => CExpmMultiply (exponent_coeff f t)
@@ -338,7 +338,7 @@ Definition toy_eigsh (k : nat) (A : tM) (v : list Z) : list Z := toy_matvec (toy
 Definition toy_expm_multiply (A : tM) (v : list Z) : list Z := toy_matvec (toy_E A) v.
 Definition toy_expm_sparse (A : tM) (v : list Z) : list Z := toy_matvec (toy_E A) v.
 Definition toy_solve_ivp (me : string) (A : tM) (ts : Q * Q) (te : list Q) (v : list Z) : list (list Z) :=
-  map (fun t => toy_matvec (toy_E (toy_tscale A t)) v) te.
+  [v; toy_matvec (toy_E (toy_tscale A (snd ts))) v].
 Definition toy_adj (A : tM) : tM := (fst A, - snd A)%Z.
 Definition toy_ip (u w : list Z) : list Z := map (fun p => (snd p - fst p)%Z) (combine u w).
 Definition toy_time_evolve :=
